@@ -444,4 +444,107 @@ pub open spec fn log_ack(v: LogView, k: String, p: u64) -> LogView {
     if v.contains_key(k) && v[k].recs.len() == 0 && v[k].next() == p { v } else { v.insert(k, QView::empty_at(p)) }
 }
 
+
+// ------------------------------------------------------------------------------------ codec round trip (O-C01-codec)
+/// L-codec-item: one serialized item parses back, consuming exactly its bytes
+pub proof fn lemma_parse_ser_item(pos: u64, payload: Seq<u8>, rest: Seq<u8>)
+    requires payload.len() <= u32::MAX,
+    ensures parse_item(ser_item(pos, payload) + rest) == Some((pos, payload, 12 + payload.len() as int)),
+{
+    lemma_auto_spec_u64_to_from_le_bytes();
+    lemma_auto_spec_u32_to_from_le_bytes();
+    let b = ser_item(pos, payload) + rest;
+    assert(b.subrange(0, 8) =~= spec_u64_to_le_bytes(pos));
+    assert(b.subrange(8, 12) =~= spec_u32_to_le_bytes(payload.len() as u32));
+    assert(b.subrange(12, 12 + payload.len() as int) =~= payload);
+}
+
+pub open spec fn items_ok(items: Seq<(u64, Seq<u8>)>) -> bool {
+    forall|i: int| 0 <= i < items.len() ==> (#[trigger] items[i]).1.len() <= u32::MAX
+}
+
+/// L-codec-items: a serialized batch parses back to exactly the batch (any number of records, any payloads)
+pub proof fn lemma_parse_ser_items(items: Seq<(u64, Seq<u8>)>)
+    requires items_ok(items),
+    ensures parse_items(ser_items(items)) == Some(items),
+    decreases items.len(),
+{
+    lemma_auto_spec_u64_to_from_le_bytes();
+    lemma_auto_spec_u32_to_from_le_bytes();
+    if items.len() > 0 {
+        let rest = ser_items(items.skip(1));
+        lemma_parse_ser_item(items[0].0, items[0].1, rest);
+        let b = ser_items(items);
+        let used = 12 + items[0].1.len() as int;
+        assert(b.skip(used) =~= rest);
+        assert(items_ok(items.skip(1))) by {
+            assert forall|i: int| 0 <= i < items.skip(1).len() implies (#[trigger] items.skip(1)[i]).1.len() <= u32::MAX by {
+                assert(items.skip(1)[i] == items[i + 1]);
+            }
+        }
+        lemma_parse_ser_items(items.skip(1));
+        assert(seq![(items[0].0, items[0].1)] + items.skip(1) =~= items);
+        assert(b.len() > 0);
+    }
+}
+
+pub open spec fn entry_ok(e: EntryView) -> bool {
+    &&& 1 <= e.kind <= 4
+    &&& name_bytes(e.queue).len() <= 65535
+    &&& (e.kind == 4 ==> parse_items(e.body) is Some)
+    &&& (e.kind != 4 ==> e.body.len() == 0)
+}
+
+/// L-codec-entry: every well-formed entry (all four kinds, any name up to 65535 bytes, any position,
+/// any batch) parses back to itself
+pub proof fn lemma_parse_ser_entry(e: EntryView)
+    requires entry_ok(e),
+    ensures parse_entry(ser_entry(e)) == Some(e),
+{
+    lemma_auto_spec_u64_to_from_le_bytes();
+    lemma_auto_spec_u16_to_from_le_bytes();
+    vstd::utf8::encode_utf8_valid_utf8(e.queue);
+    vstd::utf8::encode_utf8_decode_utf8(e.queue);
+    let b = ser_entry(e);
+    let nb = name_bytes(e.queue);
+    assert(b.subrange(1, 9) =~= spec_u64_to_le_bytes(e.position));
+    assert(b.subrange(9, 11) =~= spec_u16_to_le_bytes(nb.len() as u16));
+    assert(b.skip(11) =~= nb + e.body);
+    assert(b.skip(11).take(nb.len() as int) =~= nb);
+    assert(b.skip(11).skip(nb.len() as int) =~= e.body);
+    if e.kind != 4 {
+        assert(e.body =~= Seq::<u8>::empty());
+    }
+}
+
+// ------------------------------------------------------------------------------------ replay (C01)
+/// apply the items of an AppendRecords entry to queue k; None: an item is at a stale position
+/// (reported as Corruption by open)
+pub open spec fn replay_items(v: LogView, k: String, items: Seq<(u64, Seq<u8>)>) -> Option<LogView>
+    decreases items.len(),
+{
+    if items.len() == 0 { Some(v) }
+    else if !v.contains_key(k) || items[0].0 < v[k].next() { None }
+    else { replay_items(v.insert(k, v[k].append(items[0].0, items[0].1)), k, items.skip(1)) }
+}
+
+/// The replay rule: what open does with one decoded WAL entry (C01 / C09 mechanism).
+pub open spec fn replay_entry(v: LogView, e: EntryView) -> Option<LogView> {
+    let k = skey(e.queue);
+    if e.kind == 4 {
+        // AppendRecords: an unknown queue is (re)created at the entry's position first
+        let v1 = if !v.contains_key(k) { log_ack(v, k, e.position) } else { v };
+        match parse_items(e.body) { None => None, Some(items) => replay_items(v1, k, items) }
+    } else if e.kind == 1 {
+        // Truncate(..=position); unknown queue: ignored
+        if v.contains_key(k) { Some(v.insert(k, v[k].truncate(e.position))) } else { Some(v) }
+    } else if e.kind == 2 {
+        // RecordPosition(next = position)
+        Some(log_ack(v, k, e.position))
+    } else {
+        // DeleteQueue; unknown queue: ignored
+        Some(v.remove(k))
+    }
+}
+
 } // verus!
